@@ -36,9 +36,13 @@ type baseHandler struct {
 	hostname         string
 	user             *user.User
 	ackCloseReceived chan struct{}
-	activeCommands   int32
-	readBuf          bytes.Buffer
-	writeBuf         bytes.Buffer
+	// flush() hands a token to Read over this channel: Read can only take it
+	// while waiting for the next message, i.e. once the transport has written
+	// everything Read returned before.
+	flushed        chan struct{}
+	activeCommands int32
+	readBuf        bytes.Buffer
+	writeBuf       bytes.Buffer
 
 	// Some global options + sync primitives required.
 	once       sync.Once
@@ -121,6 +125,9 @@ func (h *baseHandler) Read(p []byte) (n int, err error) {
 		n, _ = h.readBuf.Read(p)
 		pool.RecycleBytesBuffer(line.Content)
 		line.Recycle()
+
+	case <-h.flushed:
+		// See flush(): nothing to send, just proof that Read is waiting.
 
 	case <-time.After(time.Second):
 		select {
@@ -301,6 +308,15 @@ func (h *baseHandler) flush() {
 			dlog.Server.Warn(h.user, "Some lines remain unsent", numUnsentMessages())
 			return
 		}
+	}
+	// The message taken from the queues last may still be on its way to the
+	// client (the transport blocks while the client does not read). It has been
+	// written once Read is waiting for the next message again.
+	select {
+	case h.flushed <- struct{}{}:
+	case <-h.done.Done():
+		dlog.Server.Debug(h.user, "Session is done already, not waiting for the last message")
+		return
 	}
 	dlog.Server.Debug(h.user, "ALL lines sent", fmt.Sprintf("%p", h))
 }
